@@ -8,6 +8,10 @@ obligations `Extracted.x = <what the model assumes> := by decide`, so a change t
 these tables breaks a proof obligation on the next run. Anything that cannot be found is
 emitted as a sentinel (`none` / `[]` / `false`) so the obligation fails rather than the
 extractor crashing.
+
+The same run also regenerates `lean/RactorModel/Generated/<Area>.lean` (+ `report.json`) through
+`extract/rs2lean.py`: Lean DEFINITIONS translated from selected pure Rust functions, proved equal
+to the hand-written model functions in `Props/*.lean` (see notes/XLATE.md).
 """
 import argparse
 import re
@@ -86,6 +90,187 @@ def const_value(src: str, name: str):
     return eval_const(m.group(1)) if m else None
 
 
+
+def cluster_session_creation(repo: Path):
+    """C17 (round 4): every way a NodeSession is created.
+    * client.rs: each `pub async fn connect*` -> (fn, NodeServerMessage variant it casts, is_server literal)
+    * node.rs: each arm of NodeServer::handle that calls NodeSession::new -> (arm, cookie argument, is_server argument)"""
+    client = strip_comments(read(repo, "ractor_cluster/src/node/client.rs"))
+    casts = []
+    for m in re.finditer(r"pub async fn (\w+)", client):
+        body = fn_body(client, m.group(1), m.start()) or ""
+        for c in re.finditer(r"NodeServerMessage::(\w+)\s*\{", body):
+            end = body.find(")?;", c.end())
+            iss = re.findall(r"is_server:\s*(\w+)", body[c.end(): end if end >= 0 else len(body)])
+            casts.append((m.group(1), c.group(1), ",".join(iss) if iss else "?"))
+    node = strip_comments(read(repo, "ractor_cluster/src/node.rs"))
+    sites = []
+    for m in re.finditer(r"Self::Msg::(\w+)\s*\{[^}]*\}\s*=>\s*\{", node):
+        # the arm's text up to the next arm
+        nxt = re.search(r"\n            Self::Msg::", node[m.end():])
+        arm = node[m.end(): m.end() + (nxt.start() if nxt else 0)]
+        for c in re.finditer(r"NodeSession::new\(\s*([^,]+),\s*([^,]+),\s*([^,]+),", arm):
+            sites.append((m.group(1), c.group(3).strip(), c.group(2).strip()))
+    return casts, sites
+
+
+def start_drain_gates(repo: Path):
+    """Round 4 (agent spawn, C07/C08): the gates of the start-vs-drain window.
+
+    * the guard of `drain()`'s `fetch_update` (which statuses it lifts to Draining),
+    * the child-status bound `link()` and `link_starting()` pass to `link_below`,
+    * the link call `start` makes (Send and thread-local).
+    Sentinels ("" / false) when not found, so that the obligation fails."""
+    props = strip_comments(read(repo, "ractor/src/actor/actor_properties.rs"))
+    drain = fn_body(props, "drain") or ""
+    m = re.search(r"fetch_update\([^|]*\|f\|\s*\{\s*if\s+(.*?)\s*\{\s*Some\(ActorStatus::(\w+)", drain, flags=re.S)
+    guard = re.sub(r"\s+", " ", m.group(1)) if m else ""
+    lifted = m.group(2) if m else ""
+    sup = strip_comments(read(repo, "ractor/src/actor/supervision.rs"))
+
+    def bound(fn):
+        b = fn_body(sup, fn) or ""
+        mm = re.search(r"link_below\(\s*child\s*,\s*supervisor\s*,\s*(?:super::actor_cell::)?ActorStatus::(\w+)", b)
+        return mm.group(1) if mm else ""
+    below = fn_body(sup, "link_below") or ""
+    below_ok = bool(re.search(r"child\.get_status\(\)\s*>=\s*child_limit\s*\|\|\s*supervisor\.get_status\(\)\s*>=\s*(?:super::actor_cell::)?ActorStatus::Draining", below))
+    actor = strip_comments(read(repo, "ractor/src/actor.rs"))
+    inner = strip_comments(read(repo, "ractor/src/thread_local/inner.rs"))
+    m1 = re.search(r"actor_ref\.(try_link\w*)\(", fn_body(actor, "start") or "")
+    m2 = re.search(r"actor_ref\.(try_link\w*)\(", fn_body(inner, "start") or "")
+    cell = strip_comments(read(repo, "ractor/src/actor/actor_cell.rs"))
+    m3 = re.search(r"SupervisionTree::(\w+)\(", fn_body(cell, "try_link_starting") or "")
+    return {
+        "drainLiftGuard": guard,
+        "drainLiftsTo": lifted,
+        "linkChildBound": bound("link"),
+        "linkStartingChildBound": bound("link_starting"),
+        "linkBelowGate": below_ok,
+        "sendStartLinkCall": m1.group(1) if m1 else "",
+        "localStartLinkCall": m2.group(1) if m2 else "",
+        "tryLinkStartingCalls": m3.group(1) if m3 else "",
+    }
+def registry_facts(repo: Path):
+    """C10 (round 4, agent tree): source facts about the registries.  Returns Lean lines."""
+    cell = strip_comments(read(repo, "ractor/src/actor/actor_cell.rs"))
+    actor = strip_comments(read(repo, "ractor/src/actor.rs"))
+    inner = strip_comments(read(repo, "ractor/src/thread_local/inner.rs"))
+    pidreg = strip_comments(read(repo, "ractor/src/registry/pid_registry.rs"))
+    out = []
+    # every call site of set_status(ActorStatus::Stopped) outside tests, with its enclosing fn
+    sites = []
+    for rel in ("ractor/src/actor.rs", "ractor/src/actor/actor_cell.rs", "ractor/src/thread_local/inner.rs",
+                "ractor/src/actor/actor_ref.rs", "ractor/src/actor/actor_properties.rs",
+                "ractor/src/thread_local.rs", "ractor/src/actor/derived_actor.rs"):
+        src = strip_comments(read(repo, rel))
+        for m in re.finditer(r"\.set_status\(\s*ActorStatus::Stopped\s*\)", src):
+            fns = list(re.finditer(r"\bfn\s+(\w+)", src[:m.start()]))
+            sites.append((rel.split("/")[-1] + ":" + (fns[-1].group(1) if fns else "?")))
+    out.append("/-- every non-test call site of `set_status(ActorStatus::Stopped)`: file:enclosing fn -/")
+    out.append(f"def stoppedCallSites : List String := {lean_strs(sites)}")
+    # spawn_linked_remote: the extra set_status(Stopped) comes after `start(...)` has returned an error
+    body = fn_body(actor, "spawn_linked_remote") or ""
+    i_start = body.find(".start(")
+    m = re.search(r"if\s+result\.is_err\(\)\s*\{\s*\w+\.set_status\(\s*ActorStatus::Stopped\s*\)\s*;\s*\}", body)
+    out.append("/-- `spawn_linked_remote`: `set_status(Stopped)` only inside `if result.is_err()` after `start(..).await` -/")
+    out.append(f"def remoteStoppedAfterFailedStart : Bool := {str(bool(m) and 0 <= i_start < m.start()).lower()}")
+    # set_status: registry::unregister(name) guarded by is_local()
+    ss = fn_body(cell, "set_status", cell.find("pub(crate) fn set_status")) or ""
+    guarded = re.search(r"if\s+self\.get_id\(\)\.is_local\(\)\s*\{\s*crate::registry::unregister\(name\)\s*;\s*\}", ss) is not None
+    n_unreg = len(re.findall(r"registry::unregister\(", ss))
+    out.append("/-- `set_status`: the one `registry::unregister(name)` sits inside `if self.get_id().is_local()` (fix of F2) -/")
+    out.append(f"def unregisterGuardedByIsLocal : Bool := {str(guarded and n_unreg == 1).lower()}")
+    nr = fn_body(cell, "new_remote") or ""
+    out.append("/-- `ActorCell::new_remote` touches neither registry -/")
+    out.append(f"def newRemoteTouchesRegistries : Bool := {str('registry::' in nr).lower()}")
+    # ActorCell::new: register ; register_pid ; on Err unregister(name)
+    nb = fn_body(cell, "new", cell.find("pub(crate) fn new<TActor>")) or ""
+    calls = re.findall(r"registry::(?:pid_registry::)?(register_pid|register|unregister)\(", nb)
+    out.append("/-- registry calls of `ActorCell::new` in source order -/")
+    out.append(f"def newRegistryCalls : List String := {lean_strs(calls)}")
+    rb = re.search(r"if\s+let\s+Err\(err\)\s*=\s*crate::registry::pid_registry::register_pid\([^{}]*?\)\s*\{\s*if\s+let\s+Some\(r_name\)\s*=\s*&name\s*\{\s*crate::registry::unregister\(r_name\)\s*;\s*\}\s*return\s+Err", nb) is not None
+    out.append("/-- … and the `unregister` is the rollback inside `if let Err(err) = register_pid(..)`, followed by `return Err` -/")
+    out.append(f"def newRollsBackOnPidFailure : Bool := {str(rb).lower()}")
+    tl = fn_body(inner, "new_thread_local") or ""
+    calls_tl = re.findall(r"registry::(?:pid_registry::)?(register_pid|register|unregister)\(", tl)
+    out.append("/-- the thread-local twin of `ActorCell::new` -/")
+    out.append(f"def newThreadLocalRegistryCalls : List String := {lean_strs(calls_tl)}")
+    # pid registry: every entry point is guarded by is_local(); fan-out after the insert / after the remove
+    guards = []
+    for f in ("register_pid", "unregister_pid", "where_is_pid"):
+        b = (fn_body(pidreg, f) or "").strip()
+        guards.append((f, b.startswith("if id.is_local()")))
+    out.append("/-- pid registry entry points whose body is `if id.is_local() { … }` -/")
+    out.append("def pidRegistryLocalGuards : List (String × Bool) := [" +
+               ", ".join(f"({lean_str(k)}, {str(v).lower()})" for k, v in guards) + "]")
+    rp = fn_body(pidreg, "register_pid") or ""
+    up = fn_body(pidreg, "unregister_pid") or ""
+    sp_ok = 0 <= rp.find("v.insert(") < rp.find("PidLifecycleEvent::Spawn") and "Occupied" in rp[:rp.find("v.insert(")]
+    tm_ok = 0 <= up.find(".remove(&id)") < up.find("PidLifecycleEvent::Terminate") and up.count("PidLifecycleEvent::") == 1
+    out.append("/-- `register_pid`: `Spawn` is sent only in the `Vacant` arm, after the insert; `unregister_pid`: `Terminate` only if `remove` returned an entry -/")
+    out.append(f"def pidEventsAfterTableChange : Bool := {str(bool(sp_ok and tm_ok)).lower()}")
+    return out
+
+
+def tree_facts(repo: Path):
+    """C05 (round 4, agent tree): source facts about the supervision tree.  Returns Lean lines."""
+    sup = strip_comments(read(repo, "ractor/src/actor/supervision.rs"))
+    cell = strip_comments(read(repo, "ractor/src/actor/actor_cell.rs"))
+    actor = strip_comments(read(repo, "ractor/src/actor.rs"))
+    inner = strip_comments(read(repo, "ractor/src/thread_local/inner.rs"))
+    out = []
+    # terminate: per popped actor first the kill test, then take_children, then the push
+    tb = fn_body(cell, "terminate") or ""
+    order = [m.group(0) for m in re.finditer(r"get_status\(\)|\.kill\(\)|take_children|pending\.extend|pending\.pop", tb)]
+    out.append("/-- `ActorCell::terminate`: the calls of the worklist loop in source order -/")
+    out.append(f"def terminateLoopOrder : List String := {lean_strs(order)}")
+    # the two link forms and their child limits
+    lims = []
+    for f in ("link", "link_starting"):
+        b = fn_body(sup, f) or ""
+        m = re.search(r"link_below\(\s*child\s*,\s*supervisor\s*,\s*super::actor_cell::ActorStatus::(\w+)", b)
+        lims.append((f, m.group(1) if m else "?"))
+    out.append("/-- child limit each link form passes to `link_below` -/")
+    out.append("def linkChildLimits : List (String × String) := [" + ", ".join(f"({lean_str(a)}, {lean_str(b)})" for a, b in lims) + "]")
+    lb = fn_body(sup, "link_below") or ""
+    m = re.search(r"if\s+child\.get_status\(\)\s*>=\s*child_limit\s*\|\|\s*supervisor\.get_status\(\)\s*>=\s*super::actor_cell::ActorStatus::(\w+)\s*\{\s*return\s+false", lb)
+    out.append("/-- `link_below`: `child >= child_limit || supervisor >= <this>` refuses -/")
+    out.append(f"def linkSupervisorLimit : String := {lean_str(m.group(1) if m else '?')}")
+    starts = []
+    for rel, src in (("actor.rs", actor), ("inner.rs", inner)):
+        b = fn_body(src, "start", src.find("async fn start")) or ""
+        starts.append((rel, "try_link_starting" if "try_link_starting(" in b else ("try_link" if "try_link(" in b else "?")))
+    out.append("/-- which link `start` uses (Send runtime, thread-local runtime) -/")
+    out.append("def startLinkCalls : List (String × String) := [" + ", ".join(f"({lean_str(a)}, {lean_str(b)})" for a, b in starts) + "]")
+    # who takes TREE_MUTATION_LOCK
+    locked = []
+    for f in ("link_below", "unlink", "take_children", "get_children", "for_each_child", "try_get_supervisor"):
+        locked.append((f, "TREE_MUTATION_LOCK" in (fn_body(sup, f) or "")))
+    out.append("/-- functions of `supervision.rs` that take `TREE_MUTATION_LOCK` -/")
+    out.append("def treeLockUsers : List (String × Bool) := [" + ", ".join(f"({lean_str(a)}, {str(b).lower()})" for a, b in locked) + "]")
+    # hand-over: both field guards of the first half are dropped before the old supervisor's set is locked
+    i1, i2 = lb.find("drop(current_supervisor)"), lb.find("drop(new_children_guard)")
+    i3 = lb.find("previous_supervisor.inner.tree.children.lock()")
+    out.append("/-- `link_below`: `drop(current_supervisor); drop(new_children_guard)` precede the lock of the previous supervisor's set -/")
+    out.append(f"def linkReleasesBeforeOldParent : Bool := {str(0 <= i1 < i2 < i3).lower()}")
+    # unlink: early return unless `supervisor` is the child's current supervisor, before anything is touched
+    ub = fn_body(sup, "unlink") or ""
+    m = re.search(r"if\s*!\s*current_supervisor\s*\.as_ref\(\)\s*\.is_some_and\(\|current\|\s*current\.get_id\(\)\s*==\s*supervisor\.get_id\(\)\)\s*\{\s*return;\s*\}", ub)
+    i_rm = ub.find(".remove(")
+    out.append("/-- `unlink`: `if !current_supervisor…is_some_and(|current| current.get_id() == supervisor.get_id()) { return; }` precedes the removal -/")
+    out.append(f"def unlinkOnlyCurrentSupervisor : Bool := {str(bool(m) and 0 <= m.end() <= i_rm).lower()}")
+    # cleanup: terminate() is called unconditionally (brace depth 0 of the function body, after the `armed` test)
+    cb = fn_body(actor, "cleanup", actor.find("impl ActorLifecycleGuard")) or ""
+    i_t = cb.find("self.actor.terminate()")
+    depth = cb[:i_t].count("{") - cb[:i_t].count("}") if i_t >= 0 else -1
+    out.append("/-- `ActorLifecycleGuard::cleanup`: `self.actor.terminate()` is not inside any `if` -/")
+    out.append(f"def cleanupTerminatesUnconditionally : Bool := {str(depth == 0).lower()}")
+    tk = fn_body(sup, "take_children") or ""
+    out.append("/-- `take_children`: the parent's `children` guard is never dropped explicitly (held to the end of the region) -/")
+    out.append(f"def takeHoldsParentSet : Bool := {str('children.lock()' in tk and 'drop(children)' not in tk).lower()}")
+    return out
+
+
 def main():
     ap = argparse.ArgumentParser()
     ap.add_argument("--repo", default="/repo")
@@ -143,14 +328,14 @@ def main():
         m = re.search(pat, body)
         return m.start() if m else -1
     p_pre = pos(start_body, r"run_with_signal\(pre_start\)")
-    p_link = pos(start_body, r"try_link\(")
+    p_link = pos(start_body, r"try_link(?:_starting)?\(")
     p_mark = pos(start_body, r"lifecycle\.mark_running\(\)")
     p_spawn = pos(start_body, r"spawn_named\(")
     send_start_order_ok = (0 <= p_pre < p_link < p_mark < p_spawn)
     send_start_awaits = len(re.findall(r"\.await", start_body.split("spawn_named(")[0])) if start_body else -1
     inner_src = strip_comments(read(repo, "ractor/src/thread_local/inner.rs"))
     lstart = fn_body(inner_src, "start") or ""
-    l_link = pos(lstart, r"try_link\(")
+    l_link = pos(lstart, r"try_link(?:_starting)?\(")
     l_pre = pos(lstart, r"run_with_signal\(pre_start\)")
     l_mark = pos(lstart, r"lifecycle\.mark_running\(\)")
     local_start_order_ok = (0 <= l_link < l_pre < l_mark)
@@ -260,6 +445,13 @@ def main():
     w(f"def sendSteps : List String := {lean_strs(send_steps)}")
     w(f"def drainSteps : List String := {lean_strs(drain_steps)}")
     w("")
+    w("/-- the gates of the start-vs-drain window (`start_drain_gates`) -/")
+    g = start_drain_gates(repo)
+    for k in ("drainLiftGuard", "drainLiftsTo", "linkChildBound", "linkStartingChildBound",
+              "sendStartLinkCall", "localStartLinkCall", "tryLinkStartingCalls"):
+        w(f"def {k} : String := {lean_str(g[k])}")
+    w(f"def linkBelowGate : Bool := {str(g['linkBelowGate']).lower()}")
+    w("")
     w(f"def frameReadChunkSize : Option Nat := {opt_nat(frame_chunk)}")
     w(f"def defaultMaxInboundFrameSize : Option Nat := {opt_nat(max_frame)}")
     w(f"def pendingRequestCleanupBudget : Option Nat := {opt_nat(cleanup_budget)}")
@@ -271,11 +463,32 @@ def main():
     w("/-- `thread_local/inner.rs` twins token-identical to `actor.rs` (modulo the boxed loop future) -/")
     w(f"def threadLocalTwins : List (String × Bool) := [{', '.join(f'({lean_str(k)}, {str(v).lower()})' for k, v in twins.items())}]")
     w("")
+    cc_casts, cc_sites = cluster_session_creation(repo)
+    w("/-- C17: (client.rs connect fn, NodeServerMessage variant it casts, `is_server` literal) -/")
+    w(f"def clientConnectCasts : List (String × String × String) := [{', '.join(f'({lean_str(a)}, {lean_str(b)}, {lean_str(c)})' for a, b, c in cc_casts)}]")
+    w("/-- C17: (arm of NodeServer::handle calling NodeSession::new, cookie argument, is_server argument) -/")
+    w(f"def sessionCreationSites : List (String × String × String) := [{', '.join(f'({lean_str(a)}, {lean_str(b)}, {lean_str(c)})' for a, b, c in cc_sites)}]")
+    for line in registry_facts(repo):
+        w(line)
+    w("")
+    for line in tree_facts(repo):
+        w(line)
+    w("")
     w("end Extracted")
     text = "\n".join(out) + "\n"
     outp = Path(a.out)
     if not outp.exists() or outp.read_text() != text:
         outp.write_text(text)
+    # ---- rs2lean: regenerate lean/RactorModel/Generated/*.lean (translated pure functions) ----
+    # A function that cannot be translated is NOT emitted (its equivalence theorem in Props/ then
+    # fails to elaborate); the per-function report is read by bin/check.
+    sys.path.insert(0, str(Path(__file__).resolve().parent))
+    import rs2lean
+    gen = outp.parent / "Generated"
+    rep = rs2lean.generate(repo, gen, gen / "report.json")
+    for r in rep:
+        if not r["ok"]:
+            print(f"rs2lean: TRANSLATION FAILED {r['function']}: {r['error']}", file=sys.stderr)
     return 0
 
 
